@@ -17,43 +17,43 @@ LAKE_TARGETS = ["SharkVerif.Props.C10", "SharkVerif.Props.C10Deep", "SharkVerif.
 TRUST = ("Lean 4.33 kernel; axioms at most propext/Classical.choice/Quot.sound (audited per run); hand-written model "
          "tied to the C++ by the correspondence harness (differential, generator-bounded); ")
 MANIFEST = dict(
-  text=("Theorems (Props/C10.lean) about executable models of SteepestDescent, Adam, the Rprop family, "
-        "AbstractLineSearchOptimizer with BFGS / CG / L-BFGS (unconstrained direction AND the box-constrained Cauchy-point/dog-leg direction getBoxConstrainedDirection) and the backtracking line search, "
-        "for every objective (arbitrary f, grad, feasibility predicate), starting point, parameter setting and number of steps: "
-        "best_value_is_f_best_point (reported value = f(reported point) after init and every step, for every optimizer of the model and every scalar type incl. Float), "
-        "ls_derivative_is_grad_best_point, backtracking_no_increase (+ failure leaves point/value/gradient unchanged), "
-        "linesearch_methods_monotone_bfgs (the values reported by BFGS with any dimension-preserving no-increase line search, in particular backtracking, are non-increasing over the whole run, "
-        "because bfgsUpdate_listPD keeps the list-based inverse-Hessian approximation symmetric positive definite (transported from bfgs_update_symPD on Mathlib matrices) and bfgs_direction_descent gives g'd<0), "
-        "linesearch_methods_monotone_partial (any of BFGS/CG/L-BFGS: one step does not increase the value given a non-ascent direction), direction_descent_neg_gradient, "
-        "box-constrained L-BFGS direction, for every dimension, box, point inside the box, gradient and every pair of implicit matrices positive on the projected gradient: "
-        "coords_ok (what the split into movable and blocked variables guarantees), box_direction_feasible_partial (x + d stays in the box unless the Cauchy point touches a bound; box_direction_touching_witness shows the hypothesis cannot be dropped = finding F-C10-12), "
-        "box_direction_descent (g'd < 0 whenever the projected gradient is non-zero) and box_direction_nonzero (d != 0 in that case: the clipped step lengths are positive because the loop only takes minima with positive numbers), "
-        "sd/adam/rprop/ls/trn_step_reads_archived (against member lists regenerated from the C++ read/write bodies by translate/opt_fields.py on every run: every member step reads is archived, read mirrors write, the archive is the model's Saved structure), "
-        "box_feasible_inv_rprop (Rprop never leaves the feasible set), resume_same_iterates (read(write s) = s for the archived members, so a restored instance continues with the same iterates). "
-        "Tie: SteepestDescent/Adam/Rprop are compared bit for bit (Float instance of the same definitions, same operation order) and, for every C++ step that raised no FE_INEXACT, "
-        "exactly with the Rat instance; all 8 Rprop variants (useFreezing x useBacktracking x useOldValue) are additionally run on non-separable quadratics in boxes narrower than the step sizes placed around the minimiser; "
-        "BFGS/CG/L-BFGS by one-step refinement from the harness' own previous state (bit-identical in >90% of the steps, 1e-9 tolerance otherwise), for box-constrained L-BFGS including the history update and the dog-leg direction "
-        "(active set reproduced bit for bit; multBInv/multB of the real code are inputs of the model; the text of getBoxConstrainedDirection is pinned by translate/lbfgs_box.py, which also selects the model variant the tree contains); "
-        "getBoxConstrainedDirection is additionally called directly on injected states (every coordinate on its lower bound / on its upper bound / inside, gradient component zero / inward / outward, narrow and wide boxes, 0..3 curvature pairs, exact ties) "
-        "with an independent oracle (finite, x+d in the box, blocked coordinates do not move, d = 0 iff the projected gradient is 0, g'd < 0); "
-        "the line searches are additionally called directly from arbitrary points along arbitrary (descent, ascent, zero, random) directions (backtracking compared with the model, all three types checked against the contracts value=f(point), gradient=grad(point), no increase when g'd<=0); "
-        "object reuse: a used optimizer is initialised again (every optimizer; compared from then on with a brand-new instance and with the model's fresh init: init must reset step sizes, moments, counters, history, Hessian approximation); configuration axes crossed on every run: line-search type (also requested on box-constrained objectives, where init forces backtracking), initial bracket minInterval/maxInterval, L-BFGS history size, TrustRegionNewton initial radius and minImprovementRatio, all setters of SteepestDescent/Adam/Rprop; "
-        "per-step oracle on every run: value = f(point) bit for bit, finite, feasible (BoxConstraintHandler::isFeasible AND plain comparisons with the bounds), no increase for line-search methods and TRN, restored instance = uninterrupted twin; "
-        "convergence oracle (numerical, tolerance 1e-6(1+||b||_inf) on the KKT residual x - clamp(x - g, l, u), which is the gradient without a box) after 300/400/1000 steps on strictly convex quadratics, "
-        "for box-constrained L-BFGS on problems whose minimiser has active upper and lower bounds, from starting points inside, on faces and in corners; "
-        "save/restore at random step indices through text and binary archives into a 0xFF-poisoned fresh instance, strict and lenient protocol."),
-  note=TRUST + "monotonicity over whole runs is proved for BFGS only; for CG and L-BFGS only the one-step statement under the hypothesis that the direction is a non-ascent direction "
-       "(not provable for the C++ CG restart branch d := d - g, nor for Dai-Yuan CG with an Armijo-only line search; the L-BFGS two-loop recursion is modelled and tied but its positive definiteness is not proved, "
-       "so box_direction_descent/nonzero carry p0'Bp0 > 0 and p0'B^-1 p0 > 0 as hypotheses; multB (compact representation, BLAS) is a parameter of the model, not modelled); "
-       "the repaired variants of the box direction (clipping by the sign of the direction, scaled Cauchy step; selected from the source text by translate/lbfgs_box.py) are modelled, tied bit for bit and have their own theorems: box_direction_feasible_repaired (no touching hypothesis, no hypothesis on the matrices), box_direction_descent_repaired, box_direction_nonzero_repaired; "
-       "only exercised by the correspondence / harness oracle (not theorems): dlinmin and wolfecubic line searches (contracts LSSound/LSNoIncrease are hypotheses, checked per step on the real code), "
-       "TrustRegionNewton (oracle only: value=f(point), finite, no increase, resume), finiteness, convergence on strictly convex quadratics (numerical oracle inside the harness, tolerance as stated). "
-       "Open findings on the unpatched tree (known_findings.json, findings_proposed/C10.md): F11, F-C10-12 (dog-leg ignores a bound at distance 0: infeasible direction / 'internal error'), "
-       "F-C10-13 (stall when an iterate is outside the box by rounding), F-C10-14 (Cauchy step lacks the factor |p0|^2: thousands of steps), F-C10-15 (low severity: freeze at relative accuracy 1e-5 when a movable variable is 1e-12 from the bound it moves to); the check is green on the tree with the proposed patches and follows them automatically.",
-  technique="Lean 4 invariant/refinement proofs over all step sequences + differential correspondence with the C++ (ASan/UBSan), bit-exact and exact-rational modes; independent numerical oracles in the harness",
+  text=("Theorems (Props/C10.lean, Props/C10Deep.lean, Lemmas/LineSearches.lean, Lemmas/LBFGS.lean) about executable models of SteepestDescent (with momentum), Adam, the Rprop family (8 flag combinations incl. IRprop+/-), "
+        "AbstractLineSearchOptimizer with BFGS / CG (Dai-Yuan beta, periodic reset, the C++ restart branch d := d - g) / L-BFGS (unconstrained two-loop direction AND the box-constrained Cauchy-point/dog-leg direction getBoxConstrainedDirection), "
+        "ALL THREE line searches of LineSearch.cpp as loops with fuel (backtracking; wolfecubic: bracketing by tenfold expansion, zoom by clamped cubic interpolation wlsCubicInterp with the 10% safeguard; dlinmin: mnbrak bracketing with parabolic extrapolation + Brent's method with derivatives), "
+        "and TrustRegionNewton (forcing schedule, CG-Steihaug sub-problem trustRegionCG, borderDistance, errorDifference, radius update, acceptance rule), "
+        "for every objective (arbitrary f, grad, feasibility predicate), starting point, parameter setting and number of steps. "
+        "(1) value consistency: best_value_is_f_best_point (init + every step, every optimizer of the model, every scalar type incl. Float), best_value_is_f_best_point_history (every history of init / step / init-again-on-the-used-object / archive-and-restore into any object; 'best' is the current iterate, for SteepestDescent and Adam the last one), "
+        "trn_value_is_f_point (TrustRegionNewton: value, gradient and Hessian are those of the reported point, every scalar type), dlinmin_sound (every scalar type, no hypothesis), wolfecubic_contract / dlinmin_contract / backtracking_contract / lineSearchOf_contract "
+        "(the modelled line searches, every type, every initial bracket, every sqrt: value = f(point), gradient = grad(point), same dimension, no increase along a non-ascent direction; dlinmin_no_increase needs no hypothesis on the direction), ls_derivative_is_grad_best_point; "
+        "(2) line-search methods never increase the objective, over whole runs and with NO hypothesis about the line search left: linesearch_methods_monotone_bfgs_modelled (bfgsUpdate_listPD keeps the inverse-Hessian approximation SPD, incl. the reset branch), "
+        "linesearch_methods_monotone_lbfgs_modelled (lbfgs_two_loop_is_matrix: for every history length the two loops of multBInv compute M x where M is (1/bdiag) I followed by one BFGS inverse update per stored pair, and M is symmetric positive definite because updateHist only stores pairs with y's > 1e-10; lbfgs_direction_descent), "
+        "linesearch_methods_monotone_cg_modelled (CG with the modelled wolfecubic or backtracking on every objective with a monotone gradient, i.e. every convex objective incl. all strictly convex quadratics: cg_direction_nonascent shows that periodic reset, restart branch and Dai-Yuan update give non-ascent directions whenever d'(g - g_old) >= 0, with the identity g'd_new = |g|^2 (g_old'd)/(d'(g-g_old)); wolfecubic_ray/backtracking_ray: only non-negative step lengths are tried); "
+        "cg_negative_curvature_witness (without the curvature hypothesis the Dai-Yuan direction can be an ascent direction: the C++ tests |d'(g-g_old)|, not its sign), linesearch_methods_monotone_partial (any model, any line search: one step, given a non-ascent direction); "
+        "(3) TrustRegionNewton: trn_step_no_increase_partial (the acceptance rule rho >= minImprovementRatio >= 0 never increases the objective when the sub-problem predicts no increase), trn_cg_inside / trn_cg_interior_inside (every non-boundary exit of CG-Steihaug returns a step strictly inside the radius: the loop tests before it moves), trn_border_on_sphere (boundary exits land on the sphere |z + tau d| = delta when sqrt is exact at the discriminant); "
+        "(4) box constraints: box_feasible_inv_rprop, coords_ok, box_direction_feasible_partial + box_direction_touching_witness (F-C10-12), box_direction_descent, box_direction_nonzero and the *_repaired variants (selected from the source by translate/lbfgs_box.py); lbfgs_multBInv_pos discharges the hypothesis p0'B^-1p0 > 0 of box_direction_descent when no coordinate is blocked; "
+        "(5) save/restore: sd/adam/rprop/ls/trn_step_reads_archived (member lists regenerated from the C++ read/write bodies by translate/opt_fields.py on every run), resume_same_iterates; "
+        "(6) wolfecubic as shipped reads its bracket arrays uninitialised when the bracketing loop runs out of iterations: the model has their content as a parameter, wolfecubic_contract_partial (hypothesis WolfeBracketed) + wolfecubic_uninitialised_witness (finding F-C10-16); translate/linesearch.py recognises which declaration the tree contains and pins the text of wolfecubic and the constants of wolfecubic/dlinmin. "
+        "Tie on every run: SteepestDescent/Adam/Rprop bit for bit (Float instance of the same definitions) and, for every C++ step that raised no FE_INEXACT, exactly with the Rat instance; all 8 Rprop variants on narrow boxes around the minimiser; "
+        "BFGS/CG/L-BFGS by one-step refinement from the harness' own previous state with the line search RUN BY THE MODEL for all three types (dlinmin with the configured bracket [minInterval,maxInterval]; bit-identical in >98% of the steps, 1e-9 tolerance otherwise); "
+        "the three line searches additionally called directly from arbitrary points along arbitrary (descent, ascent, zero, random) directions and compared with the model, with the independent oracle value=f(point), gradient=grad(point), no increase when g'd<=0; "
+        "TrustRegionNewton by one-step refinement of the whole step (point, value, gradient, Hessian, radius), and the two facts its theorems take as hypothesis / prove in exact arithmetic are checked on the tied model at every step (predicted change <= 0, |step|^2 <= delta^2 (1+1e-6)); "
+        "getBoxConstrainedDirection called directly on injected states (active set reproduced bit for bit; multBInv/multB of the real code are inputs of the model); the stack is pre-filled with -1e300 before every step / direct line search so that reads of uninitialised locals are visible; "
+        "boundary classes in every run for every optimizer x line-search type: start exactly on the minimiser (zero gradient: zero direction, 0/0 in TrustRegionNewton), all-zero problem, dimension 1, archive before the first step, init twice in a row, ties between coordinates, magnitudes 2^10 / 2^-10, one-step problems; "
+        "object reuse (a used optimizer initialised again is compared with a brand-new instance and with the model's fresh init); configuration axes crossed: line-search type (also requested on box-constrained objectives, where init forces backtracking), initial bracket, L-BFGS history size, TRN radius and minImprovementRatio, all setters of SteepestDescent/Adam/Rprop; "
+        "per-step oracle: value = f(point) bit for bit, finite, feasible (isFeasible AND plain comparisons), no increase for line-search methods and TRN, restored instance = uninterrupted twin; "
+        "convergence oracle (numerical, KKT residual <= 1e-6(1+||b||_inf)) after 300/400/1000 steps on strictly convex quadratics incl. box-constrained L-BFGS with active upper and lower bounds; "
+        "save/restore at random step indices through text and binary archives into a 0xFF-poisoned fresh instance, strict and lenient protocol; input distribution (optimizer, objective, dimension, steps, saves, re-initialisations, steps before first save, history sizes, variants, boundary classes) recorded in the evidence."),
+  note=TRUST + "NOT proved (exercised by correspondence / oracle only): finiteness of the iterates; convergence on strictly convex quadratics (cg_exact_linesearch_n_steps is not proved: numerical KKT oracle in the harness, tolerance as stated); "
+       "that trustRegionCG only ever predicts a decrease (hypothesis of trn_step_no_increase_partial, checked on the tied model at every step) and that the boundary step length tau is >= 0; "
+       "CG with dlinmin over whole runs (dlinmin may step backwards along the direction; only the one-step statement applies) and CG on non-convex objectives (the Dai-Yuan direction can be an ascent direction: witness theorem; oracle `increased` on every Rosenbrock step); "
+       "p0'Bp0 > 0 in box_direction_descent/nonzero (multB, the compact representation with BLAS, is a parameter of the model; p0'B^-1p0 > 0 is proved only for the un-blocked case via lbfgs_multBInv_pos); whole-run monotonicity of BOX-CONSTRAINED L-BFGS (direction theorems only). "
+       "Partial theorems and why: wolfecubic_contract_partial (the tree as shipped reads uninitialised arrays when bracketing fails: genuine defect F-C10-16, witness theorem); box_direction_feasible_partial (F-C10-12, witness); trn_step_no_increase_partial (unproved CG fact, no counterexample: with the F10 sign error the prediction was positive); trn_border_on_sphere (sqrt exact at one argument: floating point is not). "
+       "Order statements are over Rat (exact arithmetic); statements without arithmetic hold for every scalar type incl. the Float instance the driver runs. "
+       "Open findings on the unpatched tree (known_findings.json, findings_proposed/C10.md): F-C10-15 (low severity: box-constrained L-BFGS freezes at relative accuracy 1e-5 when a movable variable is 1e-12 from the bound it moves to), F-C10-16 (wolfecubic uninitialised bracket arrays; outside the generated objective family, reached by the corpus input with a linear objective); the check is green on the tree with the proposed patches and follows them automatically.",
+  technique="Lean 4 invariant/refinement proofs over all step sequences and loop iterations (fuel) + differential correspondence with the C++ (ASan/UBSan), bit-exact and exact-rational modes; independent numerical oracles in the harness",
   design="§6 C10, §14 C10")
 FINISH = dict(level="proof",
-              rule="one case = objective (integer strictly convex quadratic A=M'M+kI n<=5 | Rosenbrock n<=4, optional dyadic box) + optimizer + "
+              rule="one case = objective (integer strictly convex quadratic A=M'M+kI n<=5 | Rosenbrock n<=4, optional dyadic box | fixed boundary problems) + optimizer + "
                    "dyadic starting point + steps with save/restore ops at random indices | direct line searches | direct calls of getBoxConstrainedDirection "
                    "on injected states | Rprop variant x narrow box | box-constrained L-BFGS convergence problem; non-trivial = at least 3 steps/calls; distinct = distinct op text")
 
@@ -713,10 +713,10 @@ def record(ctx, cases):
 
 def run(ctx):
     ctx.trusted += ["correspondence harness harness/c10.cpp + generator checks/c10.py",
-                    "hand-written model Model/GradOpt.lean, Model/Objectives.lean",
+                    "hand-written models Model/GradOpt.lean, Model/LineSearches.lean, Model/TrustRegion.lean, Model/Objectives.lean",
                     "ASan/UBSan runtime for the real code's memory safety (not a theorem)"]
     translate(ctx)
-    PROPS = ["SharkVerif.Props.C10", "SharkVerif.Props.C10Deep", "SharkVerif.Lemmas.LineSearches", "SharkVerif.Gen.LineSearchSrc"]
+    PROPS = ["SharkVerif.Props.C10", "SharkVerif.Props.C10Deep", "SharkVerif.Lemmas.LineSearches", "SharkVerif.Lemmas.LBFGS", "SharkVerif.Gen.LineSearchSrc"]
     ctx.prove(PROPS)
     if not ctx.quick:
         ctx.leanchecker(PROPS)
